@@ -13,7 +13,10 @@ import (
 	"math/rand"
 	"os"
 	"reflect"
+	"runtime"
+	"strings"
 	"sync"
+	"sync/atomic"
 	"time"
 
 	"github.com/lugu/qiloop/bus"
@@ -303,6 +306,7 @@ type Result struct {
 	Key    string `json:"key,omitempty"`
 	What   string `json:"what,omitempty"`
 	Checks int    `json:"checks,omitempty"`
+	Mixed  int    `json:"mixed,omitempty"` // members used at the same moment in the mixed concurrent phase
 }
 
 func emit(r Result) {
@@ -395,6 +399,7 @@ func Run(reg *Registry, seed int64, rounds int) {
 			}
 		}
 		checks := 0
+		mixed := 0
 		bad := func(key, what string) {
 			emit(Result{T: "viol", Pkg: it.Pkg, Iface: it.Name, Key: key, What: what})
 		}
@@ -681,7 +686,110 @@ func Run(reg *Registry, seed int64, rounds int) {
 			}
 			checks++
 		}
-		emit(Result{T: "ok", Pkg: it.Pkg, Iface: it.Name, Checks: checks})
+		// mixed concurrent phase: DIFFERENT members of the interface are used at the same moment - one goroutine
+		// per property (set a fresh value, read it back: nobody else writes that property) and one per method
+		// (up to four), all released together: values of different types are then encoded and decoded at once
+		{
+			type job struct {
+				name string
+				run  func(r *rand.Rand) (string, string)
+			}
+			var jobs []job
+			for _, pr := range it.Props {
+				pr := pr
+				if failed["prop:"+pr.IDL] {
+					continue
+				}
+				gm, sm2 := px0.MethodByName(pr.Get), px0.MethodByName(pr.Set)
+				if !gm.IsValid() || !sm2.IsValid() || sm2.Type().NumIn() != 1 {
+					continue
+				}
+				jobs = append(jobs, job{pr.IDL, func(r *rand.Rand) (string, string) {
+					v := Random(r, sm2.Type().In(0), 2)
+					if e := sm2.Call([]reflect.Value{v})[0]; !e.IsNil() {
+						return "property=set-error/concurrent-mixed", fmt.Sprintf("%s: %v", pr.Set, e.Interface())
+					}
+					g := gm.Call(nil)
+					if !g[1].IsNil() {
+						return "property=get-error/concurrent-mixed", fmt.Sprintf("%s: %v", pr.Get, g[1].Interface())
+					}
+					if !Equal(g[0], v) {
+						return "property=roundtrip-differs/concurrent-mixed", fmt.Sprintf("%s: get returned %s after set %s (no other goroutine writes this property)", pr.IDL, show(g[0]), show(v))
+					}
+					return "", ""
+				}})
+			}
+			nm := 0
+			for _, m := range it.Methods {
+				m := m
+				pm := px0.MethodByName(m.Proxy)
+				if failed[m.IDL] || !pm.IsValid() || pm.Type().NumIn() == 0 || nm >= 4 {
+					continue
+				}
+				nm++
+				t := pm.Type()
+				jobs = append(jobs, job{m.IDL, func(r *rand.Rand) (string, string) {
+					args := make([]reflect.Value, t.NumIn())
+					for a := range args {
+						args[a] = Random(r, t.In(a), 2)
+					}
+					out := pm.Call(args)
+					if e := out[len(out)-1]; !e.IsNil() {
+						return "method=call-error/concurrent-mixed", fmt.Sprintf("%s failed while other members of the interface were in use: %v", m.IDL, e.Interface())
+					}
+					return "", ""
+				}})
+			}
+			// at most six operations in flight: an object's mailbox holds ten messages and refuses the eleventh
+			// ("consumer blocked"), which is load shedding, not a failure of the generated code
+			rng.Shuffle(len(jobs), func(a, b int) { jobs[a], jobs[b] = jobs[b], jobs[a] })
+			if len(jobs) > 6 {
+				jobs = jobs[:6]
+			}
+			if len(jobs) >= 2 {
+				const each = 25
+				keys := make([][2]string, len(jobs))
+				var wg sync.WaitGroup
+				var start int32
+				done := make(chan struct{})
+				for j := range jobs {
+					j := j
+					r := rand.New(rand.NewSource(rng.Int63()))
+					wg.Add(1)
+					go func() {
+						defer wg.Done()
+						for atomic.LoadInt32(&start) == 0 {
+							runtime.Gosched()
+						}
+						for k := 0; k < each; k++ {
+							if key, what := jobs[j].run(r); key != "" {
+								if strings.Contains(what, "consumer blocked") {
+									continue // refused by an overloaded mailbox: not judged
+								}
+								keys[j] = [2]string{key, what}
+								return
+							}
+						}
+					}()
+				}
+				atomic.StoreInt32(&start, 1)
+				go func() { wg.Wait(); close(done) }()
+				if v, _ := stuck.Wait(done, nil, 2*time.Minute); v != stuck.Returned {
+					bad("member=never-returned/concurrent-mixed", fmt.Sprintf("%s: %d members used at the same moment through one generated proxy: some operation never returned", it.Name, len(jobs)))
+					emit(Result{T: "abort", Pkg: it.Pkg})
+					os.Exit(0)
+				}
+				for _, k := range keys {
+					if k[0] != "" {
+						bad(k[0], k[1])
+						break
+					}
+				}
+				checks++
+				mixed = len(jobs)
+			}
+		}
+		emit(Result{T: "ok", Pkg: it.Pkg, Iface: it.Name, Checks: checks, Mixed: mixed})
 		sess.Terminate()
 		service.Terminate()
 	}
